@@ -11,6 +11,14 @@ from harness.common import Collector  # noqa: E402
 
 def main():
     h = json.loads(sys.stdin.read())
+    if isinstance(h.get("case"), dict) and h["case"].get("demo"):
+        # the failing input is a committed demonstration script (a repaired defect that is back): run it against the real code
+        import subprocess
+
+        demo = os.path.join(ROOT, h["case"]["demo"])
+        r = subprocess.run([sys.executable, demo], cwd=os.path.dirname(demo), env=dict(os.environ))
+        print(("STILL FAILS" if r.returncode == 1 else "does not fail (any more)") + f": {h['case']['demo']} (exit {r.returncode})")
+        return 1 if r.returncode == 1 else 0
     mod = importlib.import_module(f"harness.{h['property']}")
     col = Collector(h["property"], ())
     mod.replay(col, h["case"], h.get("check"))
